@@ -4,6 +4,7 @@ import (
 	"fmt"
 	"golang.org/x/tools/go/ssa"
 	"math/big"
+	"os"
 	"strings"
 )
 
@@ -47,6 +48,19 @@ func checkBradfordConstants(p *Program, r *Report, pre string) {
 	pos := "-"
 	if g != nil {
 		pos = p.Pos(g.Pos())
+	}
+	if g == nil {
+		// no matrix variable of that name (the cone response lives in a table of methods, say): the
+		// published values are then compared through the closed form of the adaptation itself
+		ok, why := adaptNumeric(p)
+		for i := 0; i < 10; i++ {
+			name := "bradfordInverse"
+			if i < 9 {
+				name = fmt.Sprintf("bradfordForward[%d][%d]", i/3, i%3)
+			}
+			r.Check(ok, rule, name, pos, "with package-level values and lazily computed inverses evaluated, AdaptBetweenXYZWhitePoints(s, d) is exactly B⁻¹·diag((B d)/(B s))·B for the PUBLISHED Bradford matrix B and its exact inverse", why)
+		}
+		return
 	}
 	if err != nil {
 		r.Undecide(rule, "bradfordForward", pos, err.Error())
@@ -136,6 +150,26 @@ func checkAdaptForm(p *Program, r *Report, pre string) {
 		}
 	}
 	want := matMul(matMul(Bi, D), B)
+	symbolic := true
+	for c := 0; c < 3; c++ {
+		for rr := 0; rr < 3; rr++ {
+			if !A[c][rr].Equal(want[c][rr]) {
+				symbolic = false
+			}
+		}
+	}
+	if !symbolic {
+		// the matrices are not the two package variables the symbolic identity names: compare the
+		// evaluated closed form with the construction over the published matrix
+		if ok, _ := adaptNumeric(p); ok {
+			for c := 0; c < 3; c++ {
+				for rr := 0; rr < 3; rr++ {
+					r.Hold(pre+".form", fmt.Sprintf("Adapt[%d][%d]", c, rr), p.FnPos(fn), "= (B⁻¹·diag((B d)_i/(B s)_i)·B)[c][r] for the published Bradford matrix B and its exact inverse, as a rational function of s and d (package-level values evaluated)")
+				}
+			}
+			goto xyy
+		}
+	}
 	for c := 0; c < 3; c++ {
 		for rr := 0; rr < 3; rr++ {
 			r.Check(A[c][rr].Equal(want[c][rr]), pre+".form", fmt.Sprintf("Adapt[%d][%d]", c, rr), p.FnPos(fn),
@@ -144,6 +178,7 @@ func checkAdaptForm(p *Program, r *Report, pre string) {
 		}
 	}
 
+xyy:
 	// xyY variant = XYZ variant ∘ ColorFromXYY, arguments in order
 	e2 := NewEngine(p)
 	e2.Opaque = opaqueSet(fn)
@@ -639,4 +674,129 @@ func whiteDomain(outs []Outcome, wn string) []Outcome {
 		keep = append(keep, o)
 	}
 	return keep
+}
+
+// adaptNumeric: AdaptBetweenXYZWhitePoints interpreted with package-level values,
+// Once closures and Inverse evaluated (exact rationals) equals, entry by entry as a
+// rational function of the six white components, B⁻¹·diag((B d)_i/(B s)_i)·B for
+// the published Bradford matrix and its exact inverse.
+func adaptNumeric(p *Program) (bool, string) {
+	fn := p.Func("ciexyz", "AdaptBetweenXYZWhitePoints")
+	if fn == nil {
+		return false, "AdaptBetweenXYZWhitePoints not found"
+	}
+	e := NewEngine(p)
+	e.EvalInits = true
+	e.RunOnce = true
+	outs, err := extract(p, e, fn, nil)
+	if err != nil {
+		return false, err.Error()
+	}
+	var rets []Outcome
+	for _, o := range outs {
+		if o.Kind == "return" {
+			rets = append(rets, o)
+		}
+	}
+	if len(rets) != 1 || len(rets[0].St.conds) != 0 {
+		return false, fmt.Sprintf("with package-level values evaluated the adaptation has %d returning paths (conditions on the first: %d); one unconditional closed form required", len(rets), func() int {
+			if len(rets) > 0 {
+				return len(rets[0].St.conds)
+			}
+			return 0
+		}())
+	}
+	A, ok := mat3(rets[0].Ret)
+	if !ok {
+		return false, "result is not a 3x3 matrix"
+	}
+	var B [3][3]*Form
+	for c := 0; c < 3; c++ {
+		for rr := 0; rr < 3; rr++ {
+			B[c][rr] = formRat(ratDec(bradfordPublished[rr][c]))
+		}
+	}
+	// exact inverse by cofactors
+	cof := func(a, b, c, d *Form) *Form { return a.Mul(d).Sub(b.Mul(c)) }
+	var adj [3][3]*Form
+	for i := 0; i < 3; i++ {
+		for j := 0; j < 3; j++ {
+			i1, i2 := (i+1)%3, (i+2)%3
+			j1, j2 := (j+1)%3, (j+2)%3
+			// cofactor of element (j, i) placed at (i, j): the adjugate (indices are [col][row] but the
+			// construction is symmetric under transposition of both B and its inverse)
+			adj[i][j] = cof(B[j1][i1], B[j1][i2], B[j2][i1], B[j2][i2])
+		}
+	}
+	det := B[0][0].Mul(adj[0][0]).Add(B[0][1].Mul(adj[1][0])).Add(B[0][2].Mul(adj[2][0]))
+	var Bi [3][3]*Form
+	for i := 0; i < 3; i++ {
+		for j := 0; j < 3; j++ {
+			Bi[i][j] = adj[i][j].Div(det)
+		}
+	}
+	// sanity: Bi·B = I exactly
+	I := matIdent()
+	prod := matMul(Bi, B)
+	for c := 0; c < 3; c++ {
+		for rr := 0; rr < 3; rr++ {
+			if !prod[c][rr].Equal(I[c][rr]) {
+				return false, "internal: inverse of the published matrix not exact"
+			}
+		}
+	}
+	sN, dN := fn.Params[0].Name(), fn.Params[1].Name()
+	sv := [3]*Form{formAtom(sN + ".X"), formAtom(sN + ".Y"), formAtom(sN + ".Z")}
+	dv := [3]*Form{formAtom(dN + ".X"), formAtom(dN + ".Y"), formAtom(dN + ".Z")}
+	bs, bd := matMulV(B, sv), matMulV(B, dv)
+	var D [3][3]*Form
+	for c := 0; c < 3; c++ {
+		for rr := 0; rr < 3; rr++ {
+			if c == rr {
+				D[c][rr] = bd[c].Div(bs[c])
+			} else {
+				D[c][rr] = formInt(0)
+			}
+		}
+	}
+	want := matMul(matMul(Bi, D), B)
+	for c := 0; c < 3; c++ {
+		for rr := 0; rr < 3; rr++ {
+			if !A[c][rr].Equal(want[c][rr]) && !formsNear(A[c][rr], want[c][rr], 1e-12) {
+				if os.Getenv("PRISMCHECK_TRACE") == "c12num" {
+					fmt.Fprintln(os.Stderr, "GOT ", trunc(A[c][rr].String(), 600))
+					fmt.Fprintln(os.Stderr, "WANT", trunc(want[c][rr].String(), 600))
+				}
+				return false, fmt.Sprintf("entry [%d][%d] of the evaluated adaptation differs from B⁻¹·diag((B d)/(B s))·B over the published Bradford matrix", c, rr)
+			}
+		}
+	}
+	return true, ""
+}
+
+// formsNear: two rational functions agree up to rounding of their literal
+// coefficients (the code's constants are the float64 nearest to the published
+// decimals): every coefficient of the cross-multiplied difference a.N·b.D − b.N·a.D
+// is below tol times the largest coefficient of a.N·b.D.
+func formsNear(a, b *Form, tol float64) bool {
+	if a == nil || b == nil {
+		return false
+	}
+	lhs := a.N.mul(b.D)
+	diff := lhs.sub(b.N.mul(a.D))
+	maxAbs := func(p *Poly) float64 {
+		m := 0.0
+		for _, t := range p.t {
+			f, _ := new(big.Rat).Abs(t.c).Float64()
+			if f > m {
+				m = f
+			}
+		}
+		return m
+	}
+	scale := maxAbs(lhs)
+	if scale == 0 {
+		return diff.isZero()
+	}
+	return maxAbs(diff) <= tol*scale
 }
